@@ -408,7 +408,29 @@ def p2_selection_protocol(ctx: Ctx):
                             break
                 ctx.check(bad is None, rel, L.ast, q, 'a selected site is reported by the listing',
                           'the listing arm can leave without recording the site', path=describe_path(bad, rel) if bad else None)
-                # a selected candidate always reaches the listing test (nothing else decides whether it is listed)
+            # a selected candidate always reaches the listing test: nothing else (an unroll count of zero, say) decides
+            # whether a candidate that took an index and was counted as matched is listed
+            from ..dataflow import guards_of, parent_map
+            pm = parent_map(v.fn)
+            for m_ in v.ev['MATCH']:
+                bad = None
+                # what is known to hold where the count is taken (`if aimed: self._matched += 1`): a later test of the same
+                # condition cannot go the other way
+                holds = {norm(g) for g, arm in guards_of(v.fn, m_.ast, pm) if arm == 'then'}
+
+                def feasible(n, lab, holds=holds):
+                    t = norm(n.ast) if n.kind == 'test' and n.ast is not None else None
+                    if t is None:
+                        return True
+                    return not ((t in holds and lab is False) or (t.startswith('not ') and t[4:] in holds and lab is True))
+                for end in v.activation_ends():
+                    p = v.path_from_succ(m_, end, avoid=lambda n: n in v.ev['LISTING'], edge_ok=feasible)
+                    if p is not None:
+                        bad = p
+                        break
+                ctx.check(bad is None, rel, m_.ast, q, 'a candidate counted as matched always reaches the listing test',
+                          'a counted candidate can leave unlisted: the listing shows fewer sites than the index check accepts (unroll_for with times=0 listed none and accepted every index)',
+                          path=describe_path(bad, rel) if bad else None)
             for f in v.ev['FOUND']:
                 p = v.path(v.start, f, edge_ok=lambda n, lab: not any(n is L and lab is True for L in v.ev['LISTING']))
                 ctx.check(p is None, rel, f.ast, q, 'sites are reported only while listing', 'a rewrite run also fills the listing',
@@ -1566,6 +1588,8 @@ T = 'fpy2/transform/'
 FU, SL, WU, RI, FI = T + 'for_unroll.py', T + 'split_loop.py', T + 'while_unroll.py', T + 'round_insert.py', T + 'func_inline.py'
 
 MUTANTS = [
+    Mutant('zero-unroll-count-skips-the-listing', FU, "        if not aimed:\n            return super()._visit_for(stmt, ctx)\n        if self.listing:", "        if not (aimed and self.times > 0):\n            return super()._visit_for(stmt, ctx)\n        if self.listing:", 'C19.P2',
+           'finding F94 before its repair: sites(unroll_for, f, times=0) is [] while every index below the loop count is accepted'),
     Mutant('refusals-for-the-default-times', FU, "        return _lister(func, times, strategy).list_refusals(within)", "        return _lister(func, 1, strategy).list_refusals(within)", 'C19.T1',
            'seeded change C19d: with times=2 a loop of length 4 is neither a site nor a refusal'),
     Mutant('lister-arguments-crossed', FU, "    return _ForUnroll(\n        func, None, times, strategy, ReachingDefs.analyze(func),", "    return _ForUnroll(\n        func, None, 1, strategy, ReachingDefs.analyze(func),", 'C19.T1',
